@@ -617,3 +617,21 @@ MP("x-memo-hash-of-reversed-children", "C17", "R17.3", "features/fg1-2", "skepti
    "            self._hash = sha256d(b''.join(c.hash() for c in self._children))", "            self._hash = sha256d(b''.join(c.hash() for c in reversed(self._children)))")
 MP("x-takewhile-predicate-ignores-stop", "C20", "R20.8", "refactors/ri3-4", "skepticoin/networking/local_peer.py",
    "        return self.running\n", "        return True\n")
+
+# ----------------------------------------------------------------------------------------------- round-5 rules
+M("x-late-bound-locator-rows", "C08", "RX.3", BS,
+  "            for transaction in block.transactions:\n",
+  "            locator_rows.append((sha256d(t.serialize()), block_hash) for t in block.transactions)\n            for transaction in block.transactions:\n",
+  BS, "        blocks_param = []\n", "        blocks_param = []\n        locator_rows: list = []\n")
+M("x-checks-as-late-bound-lambdas", "C01", "RX.3", CONS,
+  "    for transaction in block.transactions[1:]:\n        validate_non_coinbase_transaction_by_itself(transaction)\n",
+  "    checks = [lambda: validate_non_coinbase_transaction_by_itself(transaction) for transaction in block.transactions[1:]]\n    for check in checks:\n        check()\n")
+M("x-transaction-copied-with-its-id", "C07", "R07.9", DT,
+  "    def signable_equivalent(self) -> Transaction:\n", "    def with_outputs(self, outputs: List[Output]) -> Transaction:\n        import copy\n        t = copy.copy(self)\n        t.outputs = outputs\n        return t\n\n    def signable_equivalent(self) -> Transaction:\n")
+M("x-inventory-state-in-class-body", "C20", "R20.11", RP,
+  "class MessageReceiver:\n    def __init__(self, peer: ConnectedRemotePeer):\n        self.peer = peer\n",
+  "class MessageReceiver:\n    seen_frames: list = []\n\n    def __init__(self, peer: ConnectedRemotePeer):\n        self.peer = peer\n        self.seen_frames.append(0)\n")
+M("x-address-shown-before-save-via-context-manager", "C15", "R15.3", "skepticoin/scripts/receive.py",
+  "    public_key = wallet.get_annotated_public_key(args.annotation)\n    save_wallet(wallet)\n",
+  "    with _saving(wallet):\n        public_key = wallet.get_annotated_public_key(args.annotation)\n        print(\"SKE\" + human(public_key) + \"PTI\")\n",
+  "skepticoin/scripts/receive.py", "def main() -> None:\n", "from contextlib import contextmanager\n\n\n@contextmanager\ndef _saving(wallet):  # type: ignore\n    yield wallet\n    save_wallet(wallet)\n\n\ndef main() -> None:\n")
